@@ -3027,3 +3027,142 @@ def careful_getattr(md, inst, name, default=_marker):
     get = _getter(md)
 """, 'C05.R1'),
 ]
+
+# ------------------------------------------------------ seed wave 10 rules
+CATALOGUE['C01'] += [
+    V('scan resumes behind the semicolon of a rejected entity', 'DT_HTML.py',
+      """                start = s + 1
+                continue
+""",
+      """                start = max(s + 1, text.find(';', s) + 1)
+                continue
+""", 'C01.R9'),
+]
+CATALOGUE['C02'] += [
+    V('client dropped when false', 'DT_String.py',
+      """        if client is not None:
+            if isinstance(client, tuple):
+                # if client is a tuple, it represents a "path" of clients""",
+      """        if client:
+            if isinstance(client, tuple):
+                # if client is a tuple, it represents a "path" of clients""",
+      'C02.R1'),
+    V('silent: initvars with continue guards', 'DT_String.py',
+      """            for k in globals.keys():
+                if k[:1] != '_' and k not in vars:
+                    vars[k] = globals[k]""",
+      """            for k in globals.keys():
+                if k[:1] == '_':
+                    continue
+                if k in vars:
+                    continue
+                vars[k] = globals[k]"""),
+]
+CATALOGUE['C06'] += [
+    V('try..finally test accepts further blocks', 'DT_Try.py',
+      "        if len(blocks) == 2 and blocks[1][0] == 'finally':",
+      "        if len(blocks) >= 2 and blocks[1][0] == 'finally':",
+      'C06.R13'),
+    V('silent: try..finally test written the other way round', 'DT_Try.py',
+      "        if len(blocks) == 2 and blocks[1][0] == 'finally':",
+      "        if blocks[1:] and blocks[1][0] == 'finally' "
+      "and len(blocks) == 2:"),
+]
+CATALOGUE['C07'] += [
+    V('name= together with expr= accepted', 'DT_Util.py',
+      """        if expr:
+            if 'expr' in params:
+                raise ParseError('%s and expr given' % attr, tag)
+            return (params[attr], None)
+        return params[attr]""",
+      """        if expr:
+            return (params[attr], None)
+        return params[attr]""", 'C07.R12'),
+]
+CATALOGUE['C10'] += [
+    V('value() prefers the attribute', 'DT_InSV.py',
+      """        if data['mapping']:
+            return item[name]
+        return getattr(item, name)""",
+      """        if data['mapping'] and not hasattr(item, name):
+            return item[name]
+        return getattr(item, name)""", 'C10.R11'),
+    V('mapping ignored with no_push_item', 'DT_In.py',
+      "        if 'mapping' in args:\n            self.mapping = args['mapping']",
+      "        if 'mapping' in args and not self.no_push_item:\n"
+      "            self.mapping = args['mapping']", 'C10.R12'),
+]
+CATALOGUE['C13'] += [
+    V('None of a called key is not replaced', 'DT_In.py',
+      """                    if not basic_type(type(k)) and callable(k):
+                        try:
+                            k = k()
+                        except Exception:
+                            k = _Smallest
+                    if k is None:
+                        k = _Smallest""",
+      """                    if k is None:
+                        k = _Smallest
+                    if not basic_type(type(k)) and callable(k):
+                        try:
+                            k = k()
+                        except Exception:
+                            k = _Smallest""", 'C13.R9'),
+]
+CATALOGUE['C14'] += [
+    V('return value through and/or', 'DT_Return.py',
+      """        if self.expr is None:
+            val = md[self.__name__]
+        else:
+            val = self.expr.eval(md)
+""",
+      """        val = self.expr is not None and self.expr.eval(md) \\
+            or md[self.__name__]
+""", 'C14.R10'),
+    V('silent: return value through a conditional expression',
+      'DT_Return.py',
+      """        if self.expr is None:
+            val = md[self.__name__]
+        else:
+            val = self.expr.eval(md)
+""",
+      """        val = md[self.__name__] if self.expr is None \\
+            else self.expr.eval(md)
+"""),
+]
+CATALOGUE['C15'] += [
+    V('size truncates at exactly size', 'DT_Var.py',
+      "            if len(val) > size:", "            if len(val) >= size:",
+      'C15.R12'),
+    V('silent: size test turned round', 'DT_Var.py',
+      "            if len(val) > size:", "            if size < len(val):"),
+    V('spacify skips a leading underscore', 'DT_Var.py',
+      "    if val.find('_') >= 0:", "    if val.find('_') > 0:", 'C15.R5'),
+]
+CATALOGUE['C16'] += [
+    V('count stored only with values', 'DT_InSV.py',
+      """        data['count-%s' % name] = count
+        if min is not None:
+            data['min-%s' % name] = min""",
+      """        if min is not None:
+            data['count-%s' % name] = count
+            data['min-%s' % name] = min""", 'C16.R8'),
+]
+CATALOGUE['C17'] += [
+    V('munge ignores an empty source', 'DT_String.py',
+      "        if source_string is not None:\n            self.raw = source_string",
+      "        if source_string:\n            self.raw = source_string",
+      'C17.R7'),
+]
+CATALOGUE['C19'] += [
+    V('html_quote tries UTF-8 first', 'html_quote.py',
+      "        v = v.decode(encoding or 'Latin-1')",
+      "        try:\n            v = v.decode('utf-8')\n"
+      "        except UnicodeDecodeError:\n"
+      "            v = v.decode(encoding or 'Latin-1')", 'C19.R3'),
+]
+CATALOGUE['C20'] += [
+    V('falsy id replaced', 'TreeTag.py',
+      "        return try_call_attr(item, idattr)",
+      "        return try_call_attr(item, idattr) or pyid(item)", 'C20.R9'),
+]
